@@ -11,9 +11,10 @@ CLAIMED = {
              "generate_cmd_waits, emitter) is executed symbolically for every DMA/kernel op-kind sequence up to length 6 "
              "(thorough 9) on U55 and U65 limits with an arbitrary conflict relation (free Boolean per op pair) and checked "
              "against a two-queue hardware monitor; a one-step inductive variant from arbitrary outstanding lists extends it to "
-             "any history length; RangeSet/MemoryAccessSet conflict detection is shown equal to byte overlap for symbolic ranges.",
+             "any history length; RangeSet/MemoryAccessSet conflict detection is shown equal to byte overlap for symbolic ranges; calc_blockdep stays in "
+             "[0, MAX] and is 0 whenever the previous kernel reads SHRAM bytes (its lookup table) that the current kernel overwrites.",
         note="Trusted: z3, symx proxies, the two-queue hardware model restated from the property, stubs replacing register "
-             "generation/blockdep in layer 1. Outside: BLOCKDEP safety under NPU block timing; streams of compiled networks.",
+             "generation/blockdep in layer 1. Outside: whether a non-zero BLOCKDEP is safe under NPU block timing; streams of compiled networks.",
         technique="dynamic symbolic execution of the real Python functions over z3 proxies (symx), bounded; counterexample replay",
         design="DESIGN.md §3 C04"),
     "C05": dict(
@@ -142,7 +143,8 @@ CLAIMED = {
              "the hardware tile/stride rule addresses equals get_address() and lies inside an address range get_address_ranges() declares; "
              "check_mem_limits raises exactly when a declared range leaves its region or names an unknown region; a real Tensor used as a "
              "rolling buffer addresses every row of a stripe's box, through the tiles addresses_for_rolling_buffer returns, at slot "
-             "(row mod buffer height) inside its storage; get_region/mem_type_size/get_mem_limits_for_regions give fast scratch its own, "
+             "(row mod buffer height) inside its storage; _avoid_nhcwb16_for_shapes keeps the brick format only when every producer/consumer shape "
+             "equals the tensor's; get_region/mem_type_size/get_mem_limits_for_regions give fast scratch its own, "
              "arena_cache_size-limited region exactly when spilling is enabled and region 0 only to permanent memory types. The weight/DMA "
              "address arithmetic is decided under C08.",
         note="Partial: the composition allocator address + footprint <= published region sizes over a compiled network is outside (no "
@@ -155,7 +157,9 @@ CLAIMED = {
              "lut.optimize_high_level_cmd_stream over every history of up to 3 (thorough 4) LUT-using operations (table size, equal-to-earlier "
              "or new values, clobbering non-LUT stripes on 16-bank configurations) against a byte-owner model of the SHRAM LUT window: every "
              "operation's lut_index points at bytes holding exactly its table; the REAL stripe generator on a symbolic-height 2-op cascade: "
-             "rows a consumer stripe reads have been produced and not yet overwritten in the rolling buffer (C10 cascade lemma); weight "
+             "rows a consumer stripe reads have been produced and not yet overwritten in the rolling buffer (C10 cascade lemma); the bytes "
+             "BufferMap.get_buffer budgets for a rolling buffer equal the live range extract_live_ranges_from_schedule reserves (symbolic stripe "
+             "heights, mixed dtypes); CascadeBuilder.build_cascades called twice records each call's own rolling buffer; weight "
              "double buffering: slice k uses buffer k mod n with its DMA before its stripe, and the buffer whose live range "
              "extract_live_ranges_from_schedule keeps to the end (expression taken from its AST) is the one the last slice uses.",
         note="Partial: per-byte last-writer tracking over emitted streams of compiled networks, live-range extraction and buffer sizing wiring "
